@@ -23,6 +23,24 @@ BM = "verde.blockreduce.BlockMean"
 VW = "verde.utils.variance_to_weights"
 
 
+def _uses_weights(t):
+    """the term depends on the caller's weights: the parameter itself or the weights slot of check_fit_input (the coordinates / data slots of
+    that call do not count although the weights are among its arguments)"""
+    stack = [t]
+    while stack:
+        x = stack.pop()
+        if not isinstance(x, tuple) or not x:
+            continue
+        if x == ("param", "weights"):
+            return True
+        if x[0] == "sub" and x[1][0] == "call" and callee(x[1]) == "verde.base.utils.check_fit_input" and is_const(x[2]) and x[2][1] in (0, 1):
+            for a in x[1][2][:2]:
+                stack.append(a)
+            continue
+        stack.extend(e for e in x if isinstance(e, tuple))
+    return False
+
+
 def r1_paths(ctx):
     qn = BM + ".filter"
     ps = ctx.paths(qn)
@@ -47,6 +65,13 @@ def r1_paths(ctx):
             ctx.add("R1", qn + "|uncertainty-without-weights-raises", "VIOLATED", "a path on which some weight is None returns normally whether or not self.uncertainty is set: uncertainty=True without weights "
                     "is accepted (for example weights given as a tuple of Nones)", fn=qn, line=p.line)
             seen.add("no-weights")
+            continue
+        if not aggs and anyn is not True and unc is not False and p.value[0] == "tuple" and len(p.value[1]) == 3 and \
+                not _uses_weights(p.value[1][2]) and not _uses_weights(p.value[1][1]):
+            # positive contradiction: a normal path that never looked at the weights nor at self.uncertainty and whose outputs do not depend on
+            # the input weights - with weights given and uncertainty=True the output weights must be the propagated input weights
+            ctx.add("R1", "%s|aggregation|%s" % (qn, Q.tags(p.conds)), "VIOLATED", "a path on which weights may be given returns data and weights that do not depend on them, without having looked at self.uncertainty "
+                    "(no aggregation is called): with weights and uncertainty=True the output weights are not the propagated input weights", fn=qn, line=p.line)
             continue
         if anyn is None or (not anyn and unc is None):
             ctx.add("R1", "%s|aggregation|%s" % (qn, Q.tags(p.conds)), "UNDECIDED", "the path does not decide whether weights were given / uncertainty is set in a recognised form", fn=qn)
